@@ -448,7 +448,7 @@ func ruleC07R4(c *Ctx) {
 			case *ssa.Store:
 				if fa, ok := x.Addr.(*ssa.FieldAddr); ok && c.isPkgNamed(fa.X.Type(), "annotations") {
 					n++
-					c.R.Check(m.isFrameAnns(fa), rule, "record:"+core.FuncName(fn)+":store:"+core.StructField(fa.X.Type(), fa.Field).Name(), c.pos(x),
+					c.R.Check(m.isFrameAnns(fa), rule, "record:"+core.FuncName(fn)+":store:"+core.CanonFieldOf(fa.X.Type(), fa.Field), c.pos(x),
 						"writes the frame's record", "an annotations field other than the frame's own record is written in the evaluator")
 				}
 			case *ssa.Call:
@@ -456,7 +456,7 @@ func ruleC07R4(c *Ctx) {
 				if callee == nil || callee.Signature.Recv() == nil || !c.isPkgNamed(callee.Signature.Recv().Type(), "annotations") {
 					return
 				}
-				if callee.Name() == "merge" && isParamOrLoad(x.Call.Args[0], m.annsParam) {
+				if core.FuncName(callee) == "(*annotations).merge" && isParamOrLoad(x.Call.Args[0], m.annsParam) {
 					return // the R2 merge
 				}
 				n++
@@ -601,13 +601,13 @@ func ruleC07Complement(c *Ctx) {
 			switch x := v.(type) {
 			case *ssa.UnOp:
 				if fa, ok := x.X.(*ssa.FieldAddr); ok && x.Op == token.MUL && m.isFrameAnns(fa) {
-					out = append(out, atom{core.StructField(fa.X.Type(), fa.Field).Name(), pol, "flag"})
+					out = append(out, atom{core.CanonFieldOf(fa.X.Type(), fa.Field), pol, "flag"})
 				}
 			case *ssa.Lookup:
 				for _, s := range traceSources(x.X) {
 					if ld, ok := s.(*ssa.UnOp); ok {
 						if fa, ok := ld.X.(*ssa.FieldAddr); ok && m.isFrameAnns(fa) {
-							out = append(out, atom{core.StructField(fa.X.Type(), fa.Field).Name(), pol, "member"})
+							out = append(out, atom{core.CanonFieldOf(fa.X.Type(), fa.Field), pol, "member"})
 						}
 					}
 				}
@@ -662,7 +662,7 @@ func ruleC07Complement(c *Ctx) {
 				if call, ok := s.Inst.(*ssa.Call); ok && core.CalleeKey(&call.Call) == "reflect.Value.Index" && len(call.Call.Args) == 2 {
 					for _, e := range traceSources(call.Call.Args[1]) {
 						if ld, ok := e.(*ssa.UnOp); ok {
-							if fa, ok := ld.X.(*ssa.FieldAddr); ok && m.isFrameAnns(fa) && core.StructField(fa.X.Type(), fa.Field).Name() == "endIndex" {
+							if fa, ok := ld.X.(*ssa.FieldAddr); ok && m.isFrameAnns(fa) && core.CanonFieldOf(fa.X.Type(), fa.Field) == "endIndex" {
 								okStart = true
 							}
 						}
@@ -774,7 +774,7 @@ func ruleC07Records(c *Ctx) {
 	var notePropsBlocks = map[*ssa.BasicBlock]bool{}
 	core.EachInstr(m.E, func(i ssa.Instruction) {
 		if call, ok := i.(*ssa.Call); ok {
-			if callee := call.Call.StaticCallee(); callee != nil && callee.Name() == "noteProperties" && m.isFrameAnns(call.Call.Args[0]) {
+			if callee := call.Call.StaticCallee(); callee != nil && core.FuncName(callee) == "(*annotations).noteProperties" && m.isFrameAnns(call.Call.Args[0]) {
 				notePropsBlocks[call.Block()] = true
 				if ld, ok := call.Call.Args[1].(*ssa.UnOp); ok {
 					evalPropsCell = resolveCell(ld.X)
@@ -789,13 +789,13 @@ func ruleC07Records(c *Ctx) {
 			case *ssa.Store:
 				if fa, ok := x.Addr.(*ssa.FieldAddr); ok && m.isFrameAnns(fa) {
 					if k, ok := x.Val.(*ssa.Const); ok && k.Value != nil && k.Value.String() == "true" {
-						if "store:"+core.StructField(fa.X.Type(), fa.Field).Name() == kind {
+						if "store:"+core.CanonFieldOf(fa.X.Type(), fa.Field) == kind {
 							out[x.Block()] = true
 						}
 					}
 				}
 			case *ssa.Call:
-				if callee := x.Call.StaticCallee(); callee != nil && "call:"+callee.Name() == kind && len(x.Call.Args) > 0 && m.isFrameAnns(x.Call.Args[0]) {
+				if callee := x.Call.StaticCallee(); callee != nil && "call:"+shortFuncName(callee) == kind && len(x.Call.Args) > 0 && m.isFrameAnns(x.Call.Args[0]) {
 					out[x.Block()] = true
 				}
 			case *ssa.MapUpdate:
